@@ -179,6 +179,12 @@ func (c *Ctx) runArgMaps(refs []argRef, st *argStats, dist map[string]int) {
 		case strings.HasPrefix(rep, "NOCOERCE"):
 			st.nocoerce++
 			continue
+		case strings.HasPrefix(rep, "HISTORY "):
+			f := strings.Fields(rep)
+			a, _ := impl.UnhexW(f[2])
+			b, _ := impl.UnhexW(f[3])
+			c.Report("spec", "argmap-depends-on-earlier-call", fmt.Sprintf("document %q: ArgumentMap of site %s gives %s, and after calls with other variables on the same node, with the SAME variables, %s", clip(refs[i].doc, 200), f[1], clip(string(a), 300), clip(string(b), 300)), refs[i].replay())
+			continue
 		case strings.HasPrefix(rep, "CRASH") || strings.HasPrefix(rep, "TIMEOUT") || strings.HasPrefix(rep, "bad"):
 			c.Report("runtime", "argmap-worker", rep[:min(300, len(rep))], map[string]any{"request": reqs[i]})
 			continue
